@@ -30,6 +30,22 @@ PROPS = {
         level_note='Trusted: tree-sitter produces the same tree for a correct InputEdit as for a fresh parse when the text is error-free (measured: silent on >10k steps after the fix of the duplicate tree.edit).',
         assumptions=['only steps whose resulting text parses without ERROR/MISSING nodes are compared (statement)'],
     ),
+    'C20': dict(
+        engines=[('vmon', 'c20')],
+        exhaustive=True,
+        technique='runtime monitoring by bounded-exhaustive execution: every string of four small notations is run through the real code and compared with an executable specification',
+        rule=('five bounded spaces, each enumerated completely and executed: (1) all strings over {$,A,B,a,z,_,1} up to length 5 (quick) / 7 (thorough) x 23 languages through '
+              'pre_process_pattern+extract_meta_var vs the specification classifier; (2) 7 canonical spellings x 3 names in a per-language carrier pattern: exactly one hole of the '
+              'expected variant, and its behaviour on sources with 0/1/2 arguments; (3) every string over {n,+,-,0-3,space} up to length 6/7 accepted by a strict CSS An+B grammar, as '
+              'nthChild (with and without reverse) on a 12-element sibling list vs {i: exists n>=0, A*n+B=i}; (4) substring on all texts up to 5/6 chars over {a,e-acute,crab} x start,end in '
+              '{absent,-7..7} through a real rule transform vs Python slicing; (5) all templates over {$,A,a,_,space} up to length 6/7 through TemplateFix (used_vars, expansion with A bound '
+              'as single and as multi). Non-trivial = distinct strings containing a sigil, distinct accepted formulas, distinct substring cases with a negative or out-of-range index.'),
+        floor={'quick': 300000, 'thorough': 3000000},
+        level_text='Each bounded space is enumerated completely and executed against the real code (exhaustive within the stated alphabet/length bounds); nothing beyond the bounds is claimed.',
+        level_note='Trusted: the executable specifications in harness/src/mon/c20.rs (classifier, strict An+B grammar, Python slice, template scanner). Templates with sigil runs > 3, digit-first or _-first names carry no verdict (statement is silent).',
+        assumptions=['template strings whose meaning the statement does not fix (sigil runs longer than 3, digit-first / underscore-first names) carry no verdict',
+                     'An+B strings outside the strict CSS grammar carry no verdict'],
+    ),
 }
 
 NOT_APPLICABLE = {}
